@@ -7,6 +7,7 @@ import (
 	"os"
 	"os/exec"
 	"path/filepath"
+	"runtime"
 	"strconv"
 	"strings"
 	"testing"
@@ -215,11 +216,26 @@ func decodeWith(b []byte, u pickle.Unpickler) (res result, hung bool) {
 		}()
 		r.v, r.err = pickle.NewDecoder(bytes.NewReader(b), u).Decode()
 	}()
-	select {
-	case r := <-ch:
-		return r, false
-	case <-time.After(20 * time.Second):
-		return result{}, true
+	// 20 s for an input of a few KiB - or, sooner, 2 GiB of additional heap: a decoder that is stuck
+	// building something exponential must not be allowed to eat the machine while the clock runs
+	var m0 runtime.MemStats
+	runtime.ReadMemStats(&m0)
+	tick := time.NewTicker(100 * time.Millisecond)
+	defer tick.Stop()
+	deadline := time.After(20 * time.Second)
+	for {
+		select {
+		case r := <-ch:
+			return r, false
+		case <-deadline:
+			return result{}, true
+		case <-tick.C:
+			var m runtime.MemStats
+			runtime.ReadMemStats(&m)
+			if m.HeapAlloc > m0.HeapAlloc+(2<<30) {
+				return result{}, true
+			}
+		}
 	}
 }
 
@@ -242,7 +258,7 @@ func execBytes(b []byte) ev.Verdict {
 		res, hung := decodeWith(b, u)
 		switch {
 		case hung:
-			return ev.Failf("hang", "Decode (%s) has not returned after 20 s on %d bytes %q", which, len(b), trunc(b))
+			return ev.Failf("hang", "Decode (%s) has not returned after 20 s (or allocated more than 2 GiB) on %d bytes %q", which, len(b), trunc(b))
 		case res.panic != nil:
 			return ev.Failf("panic", "Decode (%s) panicked: %v on %q", which, res.panic, trunc(b))
 		case res.err == nil && res.v == nil:
